@@ -3,6 +3,7 @@ discharge them."""
 from __future__ import annotations
 
 import ast
+import os
 import inspect
 import time
 import traceback
@@ -119,6 +120,7 @@ def _verify(E, reg, qualname, rep, ghosts):
     fn, kind, dropped = locate.unwrap(obj)
     fdef, path = locate.find_def(fn)
     rep.file, rep.ast_hash, rep.lines = path, locate.ast_hash(fdef), fdef.end_lineno - fdef.lineno + 1
+    rep.source = ast.unparse(fdef)
     E.cur = qualname
     E.dropped.update(dropped)
     for d in fdef.decorator_list:
@@ -442,6 +444,29 @@ def _discharge_all(E, rep):
                 o.reason = (o.reason or "") + " [no replay on the real function: effects / opaque inputs]"
         elif o.status == "undecided" and evals.get(o.id, 0) >= 50 and str(o.reason).startswith("unknown"):
             o.reason = f"not refuted by {evals[o.id]} native executions of the real function; solver: {o.reason}"
+    # Differential check against the BASELINE version of this function (contracts/baseline/_sources.json): when the function
+    # has changed, can be executed natively, and some obligation is no longer discharged without a reproduced failing input,
+    # the old and the new body are run side by side on generated inputs.  Indistinguishable => the failure to prove is
+    # attributed to the proof (missing invariant, solver limit), the obligations are left undecided and never escalated.
+    # A difference is attached as the failing input.
+    pending = [o for o in E.obls if o.func == E.cur and o.status in ("refuted", "undecided")
+               and not (getattr(o, "replay", None) or {}).get("reproduced") and not getattr(o, "tainted", None)]
+    if pending and E.cur in E.reg.contracts and _native_ok(E.reg.contracts[E.cur]) and not E.cur.startswith("lemma:"):
+        from .search import differential
+        try:
+            d = differential(E, E.reg, E.cur, E.reg.contracts[E.cur], seed=int(os.environ.get("VERIF_SEED", "0") or 0))
+        except Exception as e:      # noqa
+            d = None
+            E.assumptions.add(f"differential check against the baseline failed to run: {type(e).__name__}: {e}")
+        if d is not None and d["runs"] >= 40 and d["difference"] is None:
+            for o in pending:
+                o.status = "undecided"
+                o.reason = (f"not refuted: the changed function is indistinguishable from its baseline version on {d['runs']} generated inputs "
+                            f"(same results, same effects on its arguments); solver: {o.reason}")
+        elif d is not None and d["difference"] is not None:
+            for o in pending:
+                if o.status == "refuted":
+                    o.reason = (o.reason or "") + " [the changed function also BEHAVES differently from its baseline version: " + d["difference"]["summary"] + "]"
     for o in E.obls:
         rep.obligations.append({
             "id": o.id, "func": o.func, "kind": o.kind, "label": o.label, "status": o.status, "backend": o.backend,
